@@ -92,6 +92,8 @@ class ProtoTest:
     addSuccess, stopTest) without unittest.TestCase's own machinery, which is
     not the subject here and dominates the interpretation cost."""
 
+    skip = False
+
     def __init__(self, tname, script):
         self.tname, self.script = tname, script
 
@@ -102,7 +104,10 @@ class ProtoTest:
         result.startTest(self)
         try:
             self.script()
-            result.addSuccess(self)
+            if self.skip:          # unittest reports a skip raised in the body like this: addSkip, then stopTest
+                result.addSkip(self, 'skipped after starting threads')
+            else:
+                result.addSuccess(self)
         finally:
             result.stopTest(self)
 
@@ -118,8 +123,12 @@ def mk_test(tname, script, proto=True):
         return ProtoTest(tname, script)
 
     class T(unittest.TestCase):
+        skip = False
+
         def runTest(self):
             script()
+            if self.skip:
+                self.skipTest('skipped after starting threads')
 
         def __str__(self):
             return tname
@@ -133,7 +142,7 @@ _OPT = []
 NAMES = ['worker', 'ignored-x', 'x-ignored']
 
 
-def threads(proto, id_a, id_b, id_c, a_exists, a_known, a_end, b_known, b_name, b_end, c_exists, c_known, c_name, c_leaks, lingers):
+def threads(proto, id_a, id_b, id_c, a_exists, a_known, a_end, b_known, b_name, b_end, c_exists, c_known, c_name, c_leaks, lingers, skip0=False):
     global LAST
     del TABLE[:]
     del REPORTED[:]
@@ -187,6 +196,7 @@ def threads(proto, id_a, id_b, id_c, a_exists, a_known, a_end, b_known, b_name, 
     opts.output = Out()
     name_from_layer(UnitTests)
     tests = [mk_test('t0', t0, proto), mk_test('t1', t1, proto)]
+    tests[0].skip = cb(skip0)
 
     class Suite(unittest.TestSuite):
         def __iter__(self):
@@ -217,7 +227,7 @@ def threads_reach(*a):
 
 
 _P = [('id_a', 'int'), ('id_b', 'int'), ('id_c', 'int'), ('a_exists', 'bool'), ('a_known', 'bool'), ('a_end', 'int'), ('b_known', 'bool'),
-      ('b_name', 'int'), ('b_end', 'int'), ('c_exists', 'bool'), ('c_known', 'bool'), ('c_name', 'int'), ('c_leaks', 'bool'), ('lingers', 'bool')]
+      ('b_name', 'int'), ('b_end', 'int'), ('c_exists', 'bool'), ('c_known', 'bool'), ('c_name', 'int'), ('c_leaks', 'bool'), ('lingers', 'bool'), ('skip0', 'bool')]
 _C = 'True, ' + ', '.join(n for n, _ in _P)
 _CTC = 'False, ' + ', '.join(n for n, _ in _P)
 # idents take part in equality/hashing only: explore one representative per
@@ -228,7 +238,7 @@ _B = ('id_a == 1 and 1 <= id_b <= 2 and 1 <= id_c <= id_b + 1 and 0 <= a_end <= 
 
 def _v(**kw):
     v = dict(id_a=1, id_b=2, id_c=3, a_exists=True, a_known=True, a_end=2, b_known=True, b_name=0, b_end=3, c_exists=True,
-             c_known=True, c_name=0, c_leaks=True, lingers=False)
+             c_known=True, c_name=0, c_leaks=True, lingers=False, skip0=False)
     v.update(kw)
     return v
 
@@ -249,16 +259,16 @@ SPEC = {
     'outside': ['real thread life-cycles and the OS ident allocator', 'more than 3 application threads / 2 tests'],
     'harnesses': [
         {'name': 'threads', 'fn': 'threads', 'params': _P, 'call': _C,
-         'bounds': {'quick': _B + ' and (not lingers or (not a_exists and b_end == 0)) and (b_name < 2 or (c_name == 0 and not a_exists)) and c_name <= 1', 'thorough': _B},
+         'bounds': {'quick': _B + ' and (not skip0 or (not a_exists and not lingers and not c_exists)) and (not lingers or (not a_exists and b_end == 0)) and (b_name < 2 or (c_name == 0 and not a_exists)) and c_name <= 1', 'thorough': _B},
          'slices': {'quick': ['b_end == %d and id_b == %d and id_c == %d and %s' % (e, i, c, a) for e in range(4) for i in (1, 2) for c in range(1, i + 2) for a in ('a_exists', 'not a_exists')],
                     'thorough': ['b_end == %d and id_b == %d and id_c == %d and a_end == %d' % (e, i, c, a) for e in range(4) for i in (1, 2) for c in range(1, i + 2) for a in range(3)]},
          'reach': 'threads_reach', 'reach_bounds': {'quick': _B + ' and id_b == 2 and id_c == 3',
                                                     'thorough': _B + ' and id_b == 2 and id_c == 3'},
          'timeout': {'quick': 240, 'thorough': 800},
-         'fidelity': [_v(), _v(b_known=False, b_end=1, id_c=2), _v(a_end=0, id_b=1, b_name=1), _v(b_end=0, lingers=True, c_name=2)]},
+         'fidelity': [_v(), _v(b_known=False, b_end=1, id_c=2), _v(a_end=0, id_b=1, b_name=1), _v(b_end=0, lingers=True, c_name=2), _v(skip0=True, a_exists=False, c_exists=False)]},
         # the same world with real unittest.TestCase objects (TestCase.run drives the result)
         {'name': 'threads_tc', 'fn': 'threads', 'params': _P, 'call': _CTC,
-         'bounds': {'quick': _B + ' and c_name == 0 and b_name == 0 and a_known and id_b == 1 and not lingers',
+         'bounds': {'quick': _B + ' and c_name == 0 and b_name == 0 and a_known and id_b == 1 and not lingers and (not skip0 or (not a_exists and not c_exists))',
                     'thorough': _B},
          'slices': {'quick': ['b_end == %d and id_c == %d' % (e, c) for e in range(4) for c in (1, 2)],
                     'thorough': ['b_end == %d and id_b == %d and id_c == %d and a_end == %d' % (e, i, c, a) for e in range(4) for i in (1, 2) for c in range(1, i + 2) for a in range(3)]},
